@@ -1563,8 +1563,22 @@ func (p *provProfile) checkWeight(pi *passInfo, nc *v1.NodeClaim, opener *corev1
 	if !p.noLimits || !podIsSimple(opener) {
 		return
 	}
+	// the pools (weights, readiness, requirements) as the pass itself listed them (read-set rule), not as they were when
+	// the pass took its node snapshot a few calls earlier
+	pools := pi.pools
+	for i := len(pi.task.Reads) - 1; i >= 0; i-- {
+		if r := pi.task.Reads[i]; r.Kind == "NodePool" && r.Verb == "list" && r.Err == nil && r.Step >= pi.startStep {
+			pools = nil
+			for _, o := range r.Objs {
+				if np, ok := o.(*v1.NodePool); ok {
+					pools = append(pools, np)
+				}
+			}
+			break
+		}
+	}
 	var mine *v1.NodePool
-	for _, np := range pi.pools {
+	for _, np := range pools {
 		if np.Name == nc.Labels[v1.NodePoolLabelKey] {
 			mine = np
 		}
@@ -1572,7 +1586,7 @@ func (p *provProfile) checkWeight(pi *passInfo, nc *v1.NodeClaim, opener *corev1
 	if mine == nil {
 		return
 	}
-	for _, np := range pi.pools {
+	for _, np := range pools {
 		if np.Name == mine.Name || !poolReady(np) || ptr.Deref(np.Spec.Weight, 0) <= ptr.Deref(mine.Spec.Weight, 0) {
 			continue
 		}
